@@ -4,6 +4,7 @@ import (
 	"bufio"
 	"bytes"
 	"fmt"
+	"golang.org/x/crypto/openpgp/armor"
 	"io"
 	"os"
 	"path"
@@ -53,6 +54,42 @@ func maybeDepField(t *rapid.T, b *docBuilder, e *Exp, field, goName string, prob
 		b.dep(t, field, *d)
 		e.Deps[goName] = *d
 	}
+}
+
+// maybeClearsigned: a .dsc or .changes as it leaves dpkg-buildpackage is inside an OpenPGP
+// clearsign frame (a third of the generated ones are): header, Hash line, the text dash-escaped and
+// without its final line end, then an armored signature. No keyring is given to the typed parsers,
+// so nothing is verified - the armor is well-formed (checksum included), the signature in it is
+// random bytes.
+func maybeClearsigned(t *rapid.T, b *docBuilder) string {
+	text := b.sb.String()
+	if rapid.IntRange(0, 2).Draw(t, "clearsigned") != 0 {
+		return text
+	}
+	b.feats["clearsigned"] = true
+	var body strings.Builder
+	for _, l := range strings.SplitAfter(strings.TrimSuffix(text, "\n"), "\n") {
+		if strings.HasPrefix(l, "-") {
+			body.WriteString("- ")
+		}
+		body.WriteString(l)
+	}
+	var sig bytes.Buffer
+	w, err := armor.Encode(&sig, "PGP SIGNATURE", nil)
+	if err != nil {
+		return text
+	}
+	n := rapid.SampledFrom([]int{70, 119, 310, 566}).Draw(t, "sigLen")
+	x := uint32(rapid.IntRange(1, 1<<20).Draw(t, "sigSeed"))
+	raw := make([]byte, n)
+	for i := range raw {
+		x = x*1664525 + 1013904223
+		raw[i] = byte(x >> 24)
+	}
+	w.Write(raw)
+	w.Close()
+	hash := rapid.SampledFrom([]string{"Hash: SHA256\n", "Hash: SHA512\n", "Hash: SHA1\n"}).Draw(t, "hashLine")
+	return "-----BEGIN PGP SIGNED MESSAGE-----\n" + hash + "\n" + body.String() + "\n" + sig.String() + "\n"
 }
 
 // ------------------------------------------------------------------ .dsc
@@ -145,7 +182,7 @@ func genDscDoc(t *rapid.T) TypedDocCase {
 	if len(bins) >= 2 {
 		b.feats["multi-binary"] = true
 	}
-	return TypedDocCase{Kind: "dsc", Text: b.sb.String(), Path: p, BufSize: rapid.SampledFrom(bufSizes).Draw(t, "buf"), Exps: []Exp{e}, Acc: acc, Feats: b.featList()}
+	return TypedDocCase{Kind: "dsc", Text: maybeClearsigned(t, b), Path: p, BufSize: rapid.SampledFrom(bufSizes).Draw(t, "buf"), Exps: []Exp{e}, Acc: acc, Feats: b.featList()}
 }
 
 // ------------------------------------------------------------------ .changes
@@ -225,7 +262,7 @@ func genChangesDoc(t *rapid.T) TypedDocCase {
 	if len(bins) >= 2 {
 		b.feats["multi-binary"] = true
 	}
-	return TypedDocCase{Kind: "changes", Text: b.sb.String(), Path: p, BufSize: rapid.SampledFrom(bufSizes).Draw(t, "buf"), Exps: []Exp{e}, Acc: acc, Feats: b.featList()}
+	return TypedDocCase{Kind: "changes", Text: maybeClearsigned(t, b), Path: p, BufSize: rapid.SampledFrom(bufSizes).Draw(t, "buf"), Exps: []Exp{e}, Acc: acc, Feats: b.featList()}
 }
 
 // ------------------------------------------------------------------ debian/control
@@ -909,7 +946,7 @@ func genPackageListLine(t *rapid.T, label, bin string) string {
 
 var specC10 = Register(&Spec[TypedDocCase]{
 	Prop: "C10", Name: "typed",
-	Rule:  "six document kinds rendered from a field model in the layout the Debian tools emit: .dsc (Binary 'a, b, c' single-line or folded, Architecture list, Uploaders, Build-Depends* single-line / folded / wrap-and-sort, Package-List lines of 4 to 8 columns (arch=, profile=, protected=, essential=), Checksums-Sha1/-Sha256, Files), .changes (space-separated Binary, Closes, multi-line Description and Changes with ' .', 5-column Files), debian/control (source paragraph + 1..4 binary paragraphs, the Architecture list in a quarter of the documents laid out by hand - two blanks, a tab, folded under the first element, folded behind a tab -, folded Uploaders and dependency fields with substvars as alternatives and - in half of the documents - inside version clauses ((= ${binary:Version}), (<< ${source:Version}~), (>= ${source:Upstream-Version}.1~)), comment lines in a quarter of the documents (in front of fields, between the lines of folded ones, at the top and bottom), Essential, multi-line Description), Packages and Sources indexes of 1..4 paragraphs or (one in 25) the same paragraphs repeated to 1025 .. 4100; Packages (Source 'name (ver)', Installed-Size, folded Tag, Build-Ids, dependency accessors over single-line, folded and one-relation-per-line fields), Sources (folded Binary, Standards-Version, Vcs-*, Directory, accessors) and DEBIAN/control (decoded from text and, packed into control.tar / control.tar.gz of a minimal .deb, through deb.Load; one in twelve with a description that takes the control file beyond 32 KiB); unknown X- fields sprinkled in; the bufio.Reader handed to the Parse* functions has a generated size 16..65536 and reads from a plain, one-byte, half or data-with-EOF reader. Oracle: every struct field whose Debian field is in the model equals the model (scalars verbatim / reader convention, versions by parts, architectures by triple, dependencies against the model AST, comma/space lists as trimmed elements, file lists as (algorithm, hash, size, name[, section, priority])), accessors agree with the model. Non-trivial: a folded field, >= 2 binaries, >= 2 files or >= 2 paragraphs; distinct by (kind, text, buffer size).",
+	Rule:  "six document kinds rendered from a field model in the layout the Debian tools emit (a third of the .dsc and .changes documents inside a clearsign frame - Hash line, dash-escaped text, a well-formed armored signature block of random bytes; no keyring is given, nothing is verified): .dsc (Binary 'a, b, c' single-line or folded, Architecture list, Uploaders, Build-Depends* single-line / folded / wrap-and-sort, Package-List lines of 4 to 8 columns (arch=, profile=, protected=, essential=), Checksums-Sha1/-Sha256, Files), .changes (space-separated Binary, Closes, multi-line Description and Changes with ' .', 5-column Files), debian/control (source paragraph + 1..4 binary paragraphs, the Architecture list in a quarter of the documents laid out by hand - two blanks, a tab, folded under the first element, folded behind a tab -, folded Uploaders and dependency fields with substvars as alternatives and - in half of the documents - inside version clauses ((= ${binary:Version}), (<< ${source:Version}~), (>= ${source:Upstream-Version}.1~)), comment lines in a quarter of the documents (in front of fields, between the lines of folded ones, at the top and bottom), Essential, multi-line Description), Packages and Sources indexes of 1..4 paragraphs or (one in 25) the same paragraphs repeated to 1025 .. 4100; Packages (Source 'name (ver)', Installed-Size, folded Tag, Build-Ids, dependency accessors over single-line, folded and one-relation-per-line fields), Sources (folded Binary, Standards-Version, Vcs-*, Directory, accessors) and DEBIAN/control (decoded from text and, packed into control.tar / control.tar.gz of a minimal .deb, through deb.Load; one in twelve with a description that takes the control file beyond 32 KiB); unknown X- fields sprinkled in; the bufio.Reader handed to the Parse* functions has a generated size 16..65536 and reads from a plain, one-byte, half or data-with-EOF reader. Oracle: every struct field whose Debian field is in the model equals the model (scalars verbatim / reader convention, versions by parts, architectures by triple, dependencies against the model AST, comma/space lists as trimmed elements, file lists as (algorithm, hash, size, name[, section, priority])), accessors agree with the model. Non-trivial: a folded field, >= 2 binaries, >= 2 files or >= 2 paragraphs; distinct by (kind, text, buffer size).",
 	Check: checkTypedDoc,
 })
 
@@ -982,7 +1019,10 @@ var specC10GetDSC = Register(&Spec[GetDscCase]{
 			if idx < 0 {
 				return errf("HARNESS: no Files field")
 			}
-			n := len(lines) - idx - 1
+			n := 0 // the lines of the Files field (the document may go on behind it: a signature block)
+			for idx+1+n < len(lines) && strings.HasPrefix(lines[idx+1+n], " ") {
+				n++
+			}
 			at := idx + 1 + c.Pos%(n+1)
 			entry := " d41d8cd98f00b204e9800998ecf8427e 0 devel optional " + c.DscName + "\n"
 			lines = append(lines[:at], append([]string{entry}, lines[at:]...)...)
